@@ -8,7 +8,8 @@ Mirrors forml/project/_distribution.py
   * `Manifest.read(path)`: `setup.isolated('__4ml__', path)` = the Python import system on `path`.  For a directory
     that is `SourceFileLoader.get_code`: a cached `__pycache__/__4ml__.*.pyc` is used when its recorded source mtime
     (whole seconds) and source size equal those of `__4ml__.py`, otherwise the source is compiled and — unless
-    `sys.dont_write_bytecode` — the cache is rewritten.  For a zip file `zipimport` reads the member (no cache file;
+    `sys.dont_write_bytecode` — the cache is rewritten.  `Manifest.write` removes the cache file of the module it writes
+    (repair 9de0652; `stepUnrepaired` is the code before it).  For a zip file `zipimport` reads the member (no cache file;
     the directory cache is dropped by `importlib.invalidate_caches()` which `isolated` calls);
   * `Package.create(source, manifest, path)`: a zip file at `path` (`IsADirectoryError` on a directory), then `Package(path)`;
   * `Package(path).install(target)`: `Package.__new__` reads the manifest; same file → nothing; `uninstalled()` compares
@@ -160,7 +161,7 @@ def step (bc : Bool) (s : Store) : Op → Store × Obs
   | .write p m t =>
     match s p with
     | some (.zip _ _) => (s, .error .fileExists)
-    | some (.dir d) => (s.set p (.dir { d with man := some (m, t) }), .done)
+    | some (.dir d) => (s.set p (.dir { d with man := some (m, t), pyc := none }), .done)   -- repaired (9de0652): the cached bytecode is removed
     | none => (s.set p (.dir ⟨some (m, t), none, none⟩), .done)
   | .create p m tr =>
     match s p with
@@ -176,6 +177,19 @@ def step (bc : Bool) (s : Store) : Op → Store × Obs
 def run (bc : Bool) (s : Store) : List Op → Store × List Obs
   | [] => (s, [])
   | op :: h => ((run bc (step bc s op).1 h).1, (step bc s op).2 :: (run bc (step bc s op).1 h).2)
+
+/-- `Manifest.write` before the repair 9de0652: `__pycache__` is left alone -/
+def stepUnrepaired (bc : Bool) (s : Store) : Op → Store × Obs
+  | .write p m t =>
+    match s p with
+    | some (.zip _ _) => (s, .error .fileExists)
+    | some (.dir d) => (s.set p (.dir { d with man := some (m, t) }), .done)
+    | none => (s.set p (.dir ⟨some (m, t), none, none⟩), .done)
+  | op => step bc s op
+
+def runUnrepaired (bc : Bool) (s : Store) : List Op → Store × List Obs
+  | [] => (s, [])
+  | op :: h => ((runUnrepaired bc (stepUnrepaired bc s op).1 h).1, (stepUnrepaired bc s op).2 :: (runUnrepaired bc (stepUnrepaired bc s op).1 h).2)
 
 /-! ### the logical machine: a store `Path → Content` -/
 
@@ -238,6 +252,20 @@ def lstep (s : LStore) : Op → LStore × Obs
     | .error e => (s, .error e)
   | .remove p => (s.del p, .done)
 
+/-- `install` on the logical store with an arbitrary already-installed test `g installed package` -/
+def linstallG (g : SM → SM → Bool) (s : LStore) (src dst : Path) : LStore × Obs :=
+  match lread s src with
+  | .error e => (s, .error e)
+  | .ok m =>
+    if src = dst then (s, .installed m (ltree (s dst)))
+    else
+      match lread s dst with
+      | .ok m' => if g m' m then (s, .installed m (ltree (s dst))) else lcopy s src dst m
+      | .error _ => lcopy s src dst m
+
+/-- an already-installed test that looks at name and version only (not what the code does) -/
+def nvEq (a b : SM) : Bool := a.name == b.name && vcmp a.version b.version == .eq
+
 def lrun (s : LStore) : List Op → LStore × List Obs
   | [] => (s, [])
   | op :: h => ((lrun (lstep s op).1 h).1, (lstep s op).2 :: (lrun (lstep s op).1 h).2)
@@ -249,24 +277,6 @@ def absE : Entry → LEntry
 
 def abs (s : Store) : LStore := fun p => (s p).map absE
 
-/-! ### when the file level may answer from a stale cache -/
-
-/-- a write is harmless for the cache of its location: the cached module was not compiled from a *different* text with
-the same second and size -/
-def okOp (s : Store) : Op → Bool
-  | .write p m t =>
-    match s p with
-    | some (.dir d) =>
-      match d.pyc with
-      | some c => !(c.mtime == t && c.size == m.size) || c.code == m
-      | none => true
-    | _ => true
-  | _ => true
-
-def okRun (bc : Bool) (s : Store) : List Op → Bool
-  | [] => true
-  | op :: h => okOp s op && okRun bc (step bc s op).1 h
-
 /-- the location an operation may modify logically -/
 def target : Op → Option Path
   | .write p _ _ => some p
@@ -274,20 +284,6 @@ def target : Op → Option Path
   | .install _ dst _ => some dst
   | .read _ => none
   | .remove p => some p
-
-/-- the clock second an operation stamps on a manifest file -/
-def opTime : Op → Option Nat
-  | .write _ _ t => some t
-  | .install _ _ t => some t
-  | _ => none
-
-/-- every stamping operation happens at a second later than everything before it (bound `T`) -/
-def ticking : Nat → List Op → Bool
-  | _, [] => true
-  | T, op :: h =>
-    match opTime op with
-    | some t => decide (T ≤ t) && ticking (t + 1) h
-    | none => ticking T h
 
 /-! ### the process level: `sys.path_importer_cache`
 
@@ -374,6 +370,6 @@ def okKind (bc : Bool) (s : Store) (k : Memo) (op : Op) : Bool :=
 
 def pokRun (bc : Bool) (s : Store) (k : Memo) : List Op → Bool
   | [] => true
-  | op :: h => okOp s op && okKind bc s k op && pokRun bc (pstep bc s k op).1 (pstep bc s k op).2.1 h
+  | op :: h => okKind bc s k op && pokRun bc (pstep bc s k op).1 (pstep bc s k op).2.1 h
 
 end ForML.Store
